@@ -228,7 +228,15 @@ impl Check for C14 {
                 }
             }
         }
-        if phase == "broken" {
+        if phase == "broken" && d.chance(40) {
+            // an error of the compile stage (after type checking): an integer match without a catch-all
+            let fi = d.below(files.len());
+            files[fi].1.push_str("\nfn zz_partial(n: int32) -> int32 {\n    match n {\n        0 => 1,\n        1 => 2,\n    }\n}\n");
+            labels.push("break:compile-stage".into());
+            if fi > 0 && files[fi].0.contains('/') {
+                labels.push("break-in-lib".into());
+            }
+        } else if phase == "broken" {
             // one text replacement in one file
             let fi = d.below(files.len());
             let (from, to) = BREAKS[d.below(BREAKS.len())];
